@@ -309,3 +309,93 @@ func TestC05_P_PathResolution(t *testing.T) {
 		ev.Sample(map[string]any{"path": path, "kinds": kinds, "bogus": bogus, "tree_entities": root.count(), "blocks_requested": len(log), "blocks_in_store": st.Len()})
 	})
 }
+
+const c05HistRule = "case = (file DAG, 1..2 readers from one lazily reified node, a history of 2..7 (reader, Seek(a) via a drawn whence, ReadFull(n)) steps with ranges aimed at chunk boundaries, forward and backward); " +
+	"oracle = after every step the cumulative request log must stay inside the union of the blocks whose span intersects any range read so far (plus the bytes being right), and at the end every needed block was requested; " +
+	"non-trivial = >= 3 steps on a multi-level file with at least one forward seek over a whole chunk after a read; distinct by (writer, depth, steps, readers, forward-skip?)"
+
+// TestC05_P_FileRangeHistory: laziness must hold across a history of seeks and reads on used readers, not only for a
+// fresh Seek+Read (a reader that skips forward by reading and discarding would fetch blocks nobody asked for).
+func TestC05_P_FileRangeHistory(t *testing.T) {
+	ev := newEvid(t, c05HistRule)
+	rapid.Check(t, func(t *rapid.T) {
+		fc := genFileDAG(t, 8, 300)
+		ls := fc.St.LinkSystem()
+		pn, err := loadPlain(ls, fc.Root)
+		if err != nil {
+			t.Fatal(err)
+		}
+		fc.St.ResetLogs()
+		rn, err := unixfsnode.Reify(ipld.LinkContext{}, pn, ls)
+		if err != nil {
+			t.Fatalf("reify: %v", err)
+		}
+		nreaders := rapid.IntRange(1, 2).Draw(t, "readers")
+		type rd struct {
+			rs  io.ReadSeeker
+			pos int64
+		}
+		var readers []*rd
+		for i := 0; i < nreaders; i++ {
+			rs, err := rn.(datamodel.LargeBytesNode).AsLargeBytes()
+			if err != nil {
+				t.Fatal(err)
+			}
+			readers = append(readers, &rd{rs: rs})
+		}
+		want := map[cid.Cid]bool{}
+		steps := rapid.IntRange(2, 7).Draw(t, "steps")
+		forwardSkip := false
+		n := int64(len(fc.Data))
+		for s := 0; s < steps; s++ {
+			r := readers[rapid.IntRange(0, nreaders-1).Draw(t, "reader")]
+			a, b := genRange(t, fc)
+			if b-a > 40 {
+				b = a + int64(rapid.IntRange(1, 40).Draw(t, "shorten"))
+			}
+			whence := rapid.IntRange(0, 2).Draw(t, "whence")
+			off := a
+			switch whence {
+			case io.SeekCurrent:
+				off = a - r.pos
+			case io.SeekEnd:
+				off = a - n
+			}
+			if r.pos > 0 && a >= r.pos+int64(fc.CS) {
+				forwardSkip = true
+			}
+			buf := make([]byte, b-a)
+			var rerr error
+			must(t, "seek+read", func() {
+				if _, rerr = r.rs.Seek(off, whence); rerr != nil {
+					return
+				}
+				_, rerr = io.ReadFull(r.rs, buf)
+			})
+			if rerr != nil {
+				t.Fatalf("C05 [%s] step %d range [%d,%d): %v", fc.Desc, s, a, b, rerr)
+			}
+			if !bytes.Equal(buf, fc.Data[a:b]) {
+				t.Fatalf("C05 [%s] step %d range [%d,%d): wrong bytes", fc.Desc, s, a, b)
+			}
+			r.pos = b
+			fc.Tree.Needed(a, b, want)
+			if c, ok := subsetOf(fc.St.ReadLog(), want); !ok {
+				t.Fatalf("C05 [%s] step %d (reader at %d -> range [%d,%d), whence %d): block %s was requested although no range read so far touches it", fc.Desc, s, r.pos, a, b, whence, c)
+			}
+		}
+		got := cidSet(fc.St.ReadLog())
+		for c := range want {
+			if c != fc.Root && !got[c] {
+				t.Fatalf("C05 [%s]: needed block %s never requested", fc.Desc, c)
+			}
+		}
+		fs := ""
+		if forwardSkip {
+			fs = "forward-skip-after-read"
+		}
+		ev.Case(fmt.Sprintf("%s d=%d steps=%d r=%d %s", fc.Writer, fc.Tree.Depth(), steps, nreaders, fs), steps >= 3 && fc.Tree.Depth() >= 3 && forwardSkip,
+			"writer:"+fc.Writer, fmt.Sprintf("steps:%d", steps), fmt.Sprintf("readers:%d", nreaders), fs)
+		ev.Sample(map[string]any{"file": fc.Desc, "steps": steps, "readers": nreaders, "needed_blocks": len(want), "total_blocks": len(fc.Tree.PreOrder())})
+	})
+}
